@@ -397,3 +397,59 @@ Theorem C18_hcall_as_is_hcall : forall c h occ r k, h_pid h <> 0 ->
   /\ snd (fst (fst (hcall_as c h occ r k))) = snd (fst (fst (hcall h occ r k))).
 Proof. exact hcall_as_is_hcall. Qed.
 Print Assumptions C18_hcall_as_is_hcall.
+
+(* ---- Round 2: tie to the source by translation.  props/_c18_gen.py translates the CURRENT source of
+   Process.nice / ionice / rlimit / cpu_affinity (psutil/__init__.py) and Process.ionice_set / rlimit
+   (psutil/_pslinux.py) into programs of the statement language of C18/PyGen.v (Gen/C18_Tables.v,
+   regenerated on every run, failing closed).  [run prog pid env] interprets a program on the bound
+   arguments and ends in an exception, or in ONE call of the next layer with its evaluated arguments,
+   whether its value is returned, and whether _raise_if_pid_reused() was called before it.
+   [lin_denote] continues a _pslinux program with the model's native calls (c_ioprio_set, py_prlimit);
+   [front_denote] continues a front-end program with the TRANSLATED _pslinux programs (ionice_set,
+   rlimit) or the model's platform functions (nice, affinity) -- definitions in C18/ProofsGen.v. *)
+From PV Require Import C18.PyGen Gen.C18_Tables C18.ProofsGen.
+
+(* _pslinux.Process.ionice_set as it is in the source now = the model's ionice_set: the guards, their
+   order, ValueError for each, the native call and its arguments -- for every class, level (or None), kernel *)
+Theorem C18_gen_ionice_set_is_model : forall pid cls v k,
+  lin_denote (run gen_linux_ionice_set pid [("ioclass"%string, VInt cls); ("value"%string, optv v)]) k
+  = ionice_set pid cls v k.
+Proof. exact gen_ionice_set_correct. Qed.
+Print Assumptions C18_gen_ionice_set_is_model.
+
+(* _pslinux.Process.rlimit as it is in the source now = the model's rlimit (pid 0 refused first; None = get;
+   len(limits) != 2 -> ValueError before any call; set call, value dropped) and rlimit_scalar (an int or an
+   iterator object as limits: TypeError from len(), before any call) *)
+Theorem C18_gen_rlimit_is_model : forall pid res k,
+  (forall limits,
+     lin_denote (run gen_linux_rlimit pid [("resource_"%string, VInt res); ("limits"%string, limv limits)]) k
+     = rlimit pid res limits k) /\
+  (forall v its,
+     lin_denote (run gen_linux_rlimit pid [("resource_"%string, VInt res); ("limits"%string, VInt v)]) k
+     = rlimit_scalar pid res v k /\
+     lin_denote (run gen_linux_rlimit pid [("resource_"%string, VInt res); ("limits"%string, VIter its)]) k
+     = rlimit_scalar pid res v k).
+Proof. exact gen_rlimit_both. Qed.
+Print Assumptions C18_gen_rlimit_is_model.
+
+(* the four public methods as they are in the source now, continued by the translated _pslinux functions,
+   = the model's run_req, for EVERY request (get and set forms, every iterable shape, scalar limits) *)
+Theorem C18_gen_front_is_run_req : forall pid r k,
+  front_denote pid (front_run r pid) k = run_req pid r k.
+Proof. exact gen_front_is_run_req. Qed.
+Print Assumptions C18_gen_front_is_run_req.
+
+(* in the source as it is now, _raise_if_pid_reused() has been called before the platform layer exactly
+   for the forms Handle.guarded names (the set forms), and such a form does reach the platform layer *)
+Theorem C18_gen_guard_is_guarded : forall pid r,
+  guard_of (front_run r pid) = guarded r /\
+  (guarded r = true -> exists ret c, front_run r pid = RCall true ret c).
+Proof. exact gen_guard_both. Qed.
+Print Assumptions C18_gen_guard_is_guarded.
+
+(* the IOPriority members of the source are the kernel's class numbers *)
+Theorem C18_gen_iopriority_constants :
+  gen_iopriority = [("IOPRIO_CLASS_BE"%string, 2); ("IOPRIO_CLASS_IDLE"%string, 3);
+                    ("IOPRIO_CLASS_NONE"%string, 0); ("IOPRIO_CLASS_RT"%string, 1)].
+Proof. exact gen_iopriority_correct. Qed.
+Print Assumptions C18_gen_iopriority_constants.
